@@ -190,6 +190,11 @@ func init() {
 	})
 
 	// ---- Coin / Coins --------------------------------------------------------------------------------------------
+	reg("(github.com/cosmos/cosmos-sdk/types.Coins).Validate", "Coins.Validate: a pure partial check of the list (sorted, distinct valid denoms, positive amounts) (A-COIN)", func(c *CallCtx) []Outcome {
+		errT := c.x.enc.FreshConst("maybeerr", "Int")
+		c.st.Assume(eq(eq(errT, "0"), c.uf("coinsValid", "Bool", c.tv(0))))
+		return c.ret(TV{T: errT, Ty: tError})
+	})
 	reg("(github.com/cosmos/cosmos-sdk/types.Coins).Sort", "Coins.Sort: the same coins in denom order; for distinct denoms the result is a valid list with the entries' amounts (A-COIN)", func(c *CallCtx) []Outcome {
 		ct, _ := c.x.coinTypes()
 		x := c.x
